@@ -239,7 +239,9 @@ func ruleR13c(c *Check, rule string) {
 	writeImpls := fnSet(methodImpls(c, h, "Write")...)
 	skips := c.P.Func("model", "Target", "SkipsCache")
 	var bypass []ssa.CallInstruction
-	for _, s := range engine.SitesIn(ex.Complete) {
+	region := regionOf(c, ex.Complete)
+	sites := regionSites(c, region)
+	for _, s := range sites {
 		cal := c.G.Callees[s]
 		if len(cal) == 0 {
 			continue
@@ -260,7 +262,7 @@ func ruleR13c(c *Check, rule string) {
 				// cutting the SkipsCache-true and cache-disabled edges must make the bypass unreachable
 				pred1 := atomCallTo(c, "true", skips, nil)
 				pred2 := atomDerivedFrom(c, "false", fk("config.WorkspaceConfig", "EnableCache"))
-				if ok, _ := engine.PathExists(ex.Complete, nil, engine.IsInstr(b), engine.PathQuery{CutEdge: engine.CutEdgesWhere(func(a engine.Atom) bool { return pred1(a) || pred2(a) })}); ok {
+				if ok, _ := engine.PathExists(ex.Complete, nil, engine.IsInstr(b), engine.PathQuery{DeepTo: true, CutEdge: engine.CutEdgesWhere(func(a engine.Atom) bool { return pred1(a) || pred2(a) })}); ok {
 					ok1 = false
 				}
 				// and on the SkipsCache-true edge no uploading producer may be reachable before the write
@@ -269,7 +271,7 @@ func ruleR13c(c *Check, rule string) {
 		c.Require(ok1, rule, key, "the local-hash producer is reached exactly when SkipsCache() or the cache is disabled", "the local-hash producer is reachable on other paths than no-cache/disabled", c.P.InstrPos(bypass[0]))
 		// uploading producers must not be reachable when the target skips the cache
 		bad := ""
-		for _, s := range engine.SitesIn(ex.Complete) {
+		for _, s := range sites {
 			cal := c.G.Callees[s]
 			if len(cal) == 0 {
 				continue
@@ -281,7 +283,7 @@ func ruleR13c(c *Check, rule string) {
 			pred1 := atomCallTo(c, "false", skips, nil)
 			pred2 := atomDerivedFrom(c, "true", fk("config.WorkspaceConfig", "EnableCache"))
 			for _, p := range []func(engine.Atom) bool{pred1, pred2} {
-				if ok, _ := engine.PathExists(ex.Complete, nil, engine.IsInstr(s), engine.PathQuery{CutEdge: engine.CutEdgesWhere(p)}); ok {
+				if ok, _ := engine.PathExists(ex.Complete, nil, engine.IsInstr(s), engine.PathQuery{DeepTo: true, CutEdge: engine.CutEdgesWhere(p)}); ok {
 					bad = "outputs can be uploaded for a no-cache target or with the cache disabled (" + c.P.InstrPos(s) + ")"
 				}
 			}
@@ -289,7 +291,17 @@ func ruleR13c(c *Check, rule string) {
 		c.Require(bad == "", rule, "no-upload-when-bypassed/"+c.P.FuncName(ex.Complete), "the uploading producer is only reachable when the target is cacheable and the cache is enabled", bad, "-")
 	}
 	// OutputHash propagated before the result write
-	writes := callsToFn(c, ex.Complete, ex.Write)
+	var writes []ssa.CallInstruction
+	for _, s := range sites {
+		for _, cal := range c.G.CalleesOf(s) {
+			if cal == ex.Write {
+				writes = append(writes, s)
+			}
+		}
+	}
+	if len(writes) == 0 {
+		c.Unknown(rule, "output-hash-propagated/"+c.P.FuncName(ex.Complete), "no result write found in the completion function or its helpers", "-")
+	}
 	for _, w := range writes {
 		isStore := func(in ssa.Instruction) bool {
 			st, ok := in.(*ssa.Store)
@@ -303,7 +315,7 @@ func ruleR13c(c *Check, rule string) {
 			_, fromResult := fieldReadOn(st.Val, "OutputHash")
 			return fromResult
 		}
-		ok, _ := engine.PathExists(ex.Complete, nil, engine.IsInstr(w), engine.PathQuery{CutInstr: isStore})
+		ok, _ := engine.PathExists(ex.Complete, nil, engine.IsInstr(w), engine.PathQuery{DeepTo: true, CutInstr: isStore})
 		c.Require(!ok, rule, "output-hash-propagated/"+c.P.FuncName(ex.Complete), "every path to the result write first assigns Target.OutputHash from the result's OutputHash", "the result can be written without assigning Target.OutputHash from it: dependants would key on a stale or empty digest", c.P.InstrPos(w))
 	}
 }
